@@ -127,18 +127,31 @@ def _leafify(e):
     return out
 
 
-def run_cfg(func, env, start=None, max_steps=64, stop_at=None):
+def run_cfg(func, env, start=None, max_steps=64, stop_at=None, start_idx=0, out=None):
+    """see _run_cfg; `start_idx` skips the first elements of the start block, `out` (a dict) receives the environment at the point
+    where the walk ended."""
+    env = dict(env)
+    try:
+        return _run_cfg(func, env, start, max_steps, stop_at, start_idx)
+    finally:
+        if out is not None:
+            out.clear()
+            out.update(env)
+
+
+def _run_cfg(func, env, start=None, max_steps=64, stop_at=None, start_idx=0):
     """follow the CFG of a side-effect-free fragment from block `start` (default: entry) with every branch condition decided by `env`
     (names: variables and canonical member texts).  Stops at the first return (-> ('ret', element)) or at the first condition that
     mentions something outside env or contains a call (-> ('open', block id)).  Assignments of constants to variables in env are
     interpreted; any other element that writes a name in env raises Unknown."""
     bid = func.entry if start is None else start
-    env = dict(env)
     steps = 0
     while steps < max_steps:
         steps += 1
         blk = func.blocks[bid]
         for ei, el in enumerate(blk.els):
+            if steps == 1 and ei < start_idx:
+                continue
             if stop_at and (bid, ei) in stop_at:
                 return ("stop", (bid, ei))
             if el["k"] == "ret":
@@ -161,6 +174,13 @@ def run_cfg(func, env, start=None, max_steps=64, stop_at=None):
                             env[tgt] = ev(_leafify(el["e"].get("r")), env)
                         except Unknown:
                             raise Unknown("assignment to %s not interpretable" % tgt)
+                    elif el["e"]["op"] in ("+=", "-=", "*=", "|=", "&=", "<<=", ">>=") and not isinstance(env[tgt], (bytes, bytearray)):
+                        try:
+                            rv = ev(_leafify(el["e"].get("r")), env)
+                        except Unknown:
+                            raise Unknown("assignment to %s not interpretable" % tgt)
+                        a, o = env[tgt], el["e"]["op"][:-1]
+                        env[tgt] = _wrap({"+": a + rv, "-": a - rv, "*": a * rv, "|": a | rv, "&": a & rv, "<<": a << rv, ">>": a >> rv}[o], el["e"].get("ty"))
                     else:
                         raise Unknown("compound assignment to %s" % tgt)
         sc = func.switch_cases(blk)
